@@ -254,6 +254,11 @@ func (b *Builder) epsilonClosureOnePass(root nfa.StateID) ([]closureEntry, bool,
 // stackPush adds an NFA state to the DFS stack.
 // Returns error if state already visited (indicates non-one-pass).
 func (b *Builder) stackPush(nfaID nfa.StateID, slots uint32) error {
+	// A branch that leads nowhere (an empty class such as [^\x00-\x{10FFFF}],
+	// or a dangling split target) contributes nothing to the closure.
+	if nfaID == nfa.InvalidState {
+		return nil
+	}
 	// Check if already visited via epsilon path
 	if b.seen.Contains(uint32(nfaID)) {
 		// Multiple epsilon paths to same state = NOT one-pass
